@@ -3,7 +3,8 @@ from lib import core, rlngen
 from lib.gen import P, le, rand_fr
 from lib.rlngen import hx
 
-THEOREMS = {"ZkProofs.C17": ["Zk.C17_all_backends_same_roots_and_paths", "Zk.C17_paths_in_circuit_format"]}
+THEOREMS = {"ZkProofs.C17": ["Zk.C17_all_backends_same_roots_and_paths", "Zk.C17_paths_in_circuit_format"],
+            "ZkProofs.C17Protocol": ["Zk.C17_stateless_verifier_agrees", "Zk.C17_stateless_prover_agrees"]}
 TREE_CONFIGS = ["pm", "full", "optimal", "ark"]
 
 
